@@ -34,9 +34,9 @@ def main():
   out['suite_with_change'] = {'passing': len(passed), 'baseline_missing': missing[:5]}
   # 3. demo with / without
   r1 = sh('/venv/bin/python _seed/demo.py', cwd=wt, env=env)
-  sh('git stash', cwd=wt)
+  sh('git apply -R _seed/patch.diff', cwd=wt)
   r0 = sh('/venv/bin/python _seed/demo.py', cwd=wt, env=env)
-  sh('git stash pop', cwd=wt)
+  sh('git apply _seed/patch.diff', cwd=wt)
   out['demo_exit_with_change'] = r1.returncode
   out['demo_exit_without_change'] = r0.returncode
   out['demo_output_with_change'] = (r1.stdout + r1.stderr)[-600:]
